@@ -272,7 +272,9 @@ size = max(0, int(model.get("size", 0))); pos = max(0, int(model.get("pos", 0)))
 content = bytes((i * 37 + 11) % 251 for i in range(size))
 s3 = FakeS3(); s3.objects[("bkt", "k")] = content
 f = S3RangeFile(s3, "bkt", "k", size); f._pos = pos
-ref = io.BytesIO(content); ref.seek(pos)
+import tempfile, os
+_tf = tempfile.NamedTemporaryFile(delete=False); _tf.write(content); _tf.close()
+ref = open(_tf.name, "rb", buffering=0); ref.seek(pos)   # a real local file: negative resulting positions are errors
 bad = []
 method = {method!r}
 try:
@@ -302,7 +304,8 @@ try:
     if method in ("readinto", "readall") and len(s3.ranges) > 1: bad.append(("more than one request", s3.ranges))
 except Exception as e:
     bad.append(("unexpected exception", repr(e)))
-print("replay", method, "size", size, "pos", pos, "->", bad or "agrees with io.BytesIO")
+ref.close(); os.remove(_tf.name)
+print("replay", method, "size", size, "pos", pos, "->", bad or "agrees with a local file")
 sys.exit(1 if bad else 0)
 '''
     return gen
@@ -589,10 +592,46 @@ def install_key_contract(h: H, prefix):
     h.reg.contracts[f"{SB}:S3StorageBackend._get_s3_key"] = contract
 
 
+_MUT = {"append", "add", "extend", "update", "insert", "pop", "remove", "discard", "clear", "setdefault", "sort"}
+
+
+def retry_frame_violations(op):
+    """RETRY-FRAME: an operation handed to the retry wrapper may be invoked several times; its frame must be its own locals
+    (plus S3 requests). Returns the enclosing-scope names it mutates (syntactic: nonlocal/global, mutator calls and
+    subscript stores on names that are not local to the operation)."""
+    import ast as _ast
+    node = getattr(op, "node", None)
+    if node is None or isinstance(node, _ast.Lambda):
+        return []
+    local = {a.arg for a in node.args.posonlyargs + node.args.args + node.args.kwonlyargs}
+    for sub in _ast.walk(node):
+        if isinstance(sub, _ast.Name) and isinstance(sub.ctx, _ast.Store):
+            local.add(sub.id)
+        elif isinstance(sub, _ast.ExceptHandler) and sub.name:
+            local.add(sub.name)
+    bad = []
+    for sub in _ast.walk(node):
+        if isinstance(sub, (_ast.Nonlocal, _ast.Global)):
+            bad.extend(sub.names)
+        elif isinstance(sub, _ast.Call) and isinstance(sub.func, _ast.Attribute) and sub.func.attr in _MUT \
+                and isinstance(sub.func.value, _ast.Name) and sub.func.value.id not in local:
+            bad.append(sub.func.value.id)
+        elif isinstance(sub, _ast.Subscript) and isinstance(sub.ctx, (_ast.Store, _ast.Del)) and isinstance(sub.value, _ast.Name) \
+                and sub.value.id not in local:
+            bad.append(sub.value.id)
+        elif isinstance(sub, _ast.Attribute) and isinstance(sub.ctx, _ast.Store) and isinstance(sub.value, _ast.Name) \
+                and sub.value.id not in local:
+            bad.append(f"{sub.value.id}.{sub.attr}")
+    return sorted(set(bad))
+
+
 def install_retry_contract(h: H, calls=None):
     def with_s3_retry(I, fv, args, kwargs):
         if calls is not None:
             calls.append(args[0])
+        viol = retry_frame_violations(args[0])
+        h.ensure("RETRY-FRAME:retried-operation-mutates-only-its-own-locals", len(viol) == 0,
+                 detail=f"mutated enclosing names: {viol}" if viol else "")
         return I.call(args[0], [], {})
     h.reg.contracts[f"{S3C}:with_s3_retry"] = with_s3_retry
 
@@ -651,6 +690,8 @@ def h_list_files(nonempty):
 
         h.reg.theory_methods[("s3client", "get_paginator")] = get_paginator
         h.reg.theory_methods[("paginator", "paginate")] = paginate
+        h.reg.theory_methods[("s3page", "get")] = lambda I, obj, a, k: (obj.fields["contents"] if (a[0] == "Contents" and obj.fields["has"])
+                                                                       else (a[1] if len(a) > 1 else None))
         h.reg.theory_methods[("s3page", "__contains__")] = page_contains
         h.reg.theory_methods[("s3page", "__getitem__")] = page_getitem
 
